@@ -70,12 +70,41 @@ pub fn run_on_fresh_thread(prop: &'static dyn Prop, case: Value, env: Arc<Worker
             Err(_) => {
                 let busy = process_cpu_seconds() - cpu0;
                 if busy >= RUN_BUSY_S as f64 || started.elapsed().as_secs() >= RUN_BLOCKED_S {
-                    return RunEnd::Hang(sim::in_flight(), started.elapsed().as_secs(), busy as u64);
+                    return RunEnd::Hang(format!("{}; {}", sim::in_flight(), describe_working_directory()), started.elapsed().as_secs(), busy as u64);
                 }
                 wait = Duration::from_secs(5);
             }
         }
     }
+}
+
+/// for the hang report: where the process stands and how much there is below it (bounded walk)
+fn describe_working_directory() -> String {
+    let cwd = std::env::current_dir().map(|p| p.to_string_lossy().to_string()).unwrap_or_else(|e| format!("<{}>", e));
+    let mut entries = 0u64;
+    let mut max_depth = 0u32;
+    let mut stack: Vec<(std::path::PathBuf, u32)> = vec![(std::path::PathBuf::from("."), 0)];
+    let t0 = std::time::Instant::now();
+    let mut sample = String::new();
+    while let Some((d, depth)) = stack.pop() {
+        if entries > 200_000 || t0.elapsed().as_secs() > 5 {
+            break;
+        }
+        if let Ok(rd) = std::fs::read_dir(&d) {
+            for e in rd.flatten() {
+                entries += 1;
+                max_depth = max_depth.max(depth + 1);
+                if sample.len() < 300 && depth < 2 {
+                    sample.push_str(&e.path().to_string_lossy());
+                    sample.push(' ');
+                }
+                if e.file_type().map(|t| t.is_dir()).unwrap_or(false) {
+                    stack.push((e.path(), depth + 1));
+                }
+            }
+        }
+    }
+    format!("cwd {} holds {}{} entries, depth {}: {}", cwd, if entries > 200_000 { "more than " } else { "" }, entries, max_depth, sample.trim_end())
 }
 
 pub const RUN_BUSY_S: u64 = 30;
